@@ -17,7 +17,7 @@ TB = ("Trusted base: Lean 4.33.0 kernel; axioms propext, Quot.sound, Classical.c
 TEXT = {
     "C01": ("(theorems pending: part of the master invariant) registry frame of the resolver (C03_invoke_registry) is proved",
             "wiring of every argument of every executed function compared with the model on every explored program (projection: verdict class + enter events with provenance tokens)"),
-    "C02": ("C02_* : see Props/C02.lean when present; C20_cached / C20_onstack (a built constructor and one being built are not executed) are proved",
+    "C02": ("flag discipline of the whole resolver proved by induction over its mutual recursion (engine_flags): C02_once (per resolver call: at most one successful execution per constructor and per decorator, none for nodes already built or on the stack, and a successful one marks the node built), C02_built_stays_built, C02_cached, C02_noreentry, C02_deco_cached; the lift to whole histories (invariant of the API step) is the next proof step",
             "enter/exit skeleton compared with the model; trace predicate: successful exits per function <= accepted registrations, no nested entry"),
     "C03": ("C03_passive (Scope/Provide/Decorate/Visualize/String report no event, any state) and C03_invoke_registry (the resolver never changes the registry) are proved for the model",
             "execution order and closure (only the needed functions run, dependencies complete first) compared with the model on every explored program; trace predicate pred_c03"),
@@ -25,7 +25,7 @@ TEXT = {
     "C05": ("graph half proved at full strength for every graph size: C05_dfs_sound, C05_path, C05_dfs_total, C05_dfs_complete (Dfs.isAcyclic = internal/graph.IsAcyclic); the on-stack guard (C20_onstack) is proved to stop re-entry",
             "K-graph: IsAcyclic via hook vs model, exhaustive on all digraphs with <= 4 nodes + random graphs, each answer also judged on its own; container level: cycle verdicts, cycle lengths, process survival compared with the model under a cycle-heavy generator profile"),
     "C06": ("(theorems pending: C06_unchanged)", "metamorphic twins on the real library: history with / without each rejected Provide/Decorate followed by a probe sweep must behave identically; full traces compared with the model"),
-    "C07": ("C13_ctor_outcome / C13_deco_outcome (what a failing execution hands to its caller) and C20_ctor (events of one execution) are proved; retry/flag theorems pending",
+    "C07": ("C07_failed_writes_nothing / C07_failed_deco_writes_nothing (a failing execution changes no cache, flag or registry entry), C07_retry_ctor / C07_retry_deco (after a failing call the node is not built, off the stack / ready, hence executed again on the next demand), C07_others_kept are proved; root cause: C13_ctor_outcome / C13_deco_outcome",
             "trace predicate: no token of a failed execution is ever delivered, root cause of the demanding Invoke is the first failure; traces compared with the model under a fault-heavy profile"),
     "C08": ("(theorems pending)", "wiring across scope trees (up to 7 scopes, Export) compared with the model"),
     "C09": ("(theorems pending)", "wiring + acceptance of registrations compared with the model under a profile rich in names, groups and As"),
@@ -42,7 +42,8 @@ TEXT = {
     "C17": ("C17_silent / C17_silent_history proved at full strength (no enter/exit event in any history of a DryRun container)",
             "verdict equality dry vs normal with all-ok functions: metamorphic twin on the real library; traces compared with the model (50% dry programs)"),
     "C18": ("(theorems pending)", "Info structs of every Provide/Decorate/Invoke compared with the model (IDs excluded in reflect mode)"),
-    "C19": ("(not yet modelled: Dot layer)", "Visualize/String must not panic and must execute no user code (compared with the model); structure of the DOT output not yet compared"),
+    "C19": ("(theorems pending) the Dot layer is modelled: createGraph/AddCtor, updateGraph (FailNodes, FailGroupNodes, AddMissingNodes), PruneSuccess (lean/DigModel/Dot.lean)",
+            "K-dot: the DOT text of every Visualize (with and without VisualizeError) is parsed by a real DOT-subset parser in the harness (syntax validity, label consistency) and its structure (clusters, result nodes, parameter edges with dashed/solid, group nodes and members, failure colouring, pruning) is compared with the model; in reflect mode all constructor IDs coincide (modelled as such), distinct IDs need the generated-source mode"),
     "C20": ("C20_ctor, C20_deco (exact event sequence of one execution incl. callback error and runtime), C20_error_root, C20_cached, C20_onstack, C20_deco_cached, C20_passive proved",
             "K-callback: callback events (position, error class, runtime under the mock clock) compared with the model; trace predicate pred_c20 judges the implementation's own trace"),
 }
